@@ -614,11 +614,39 @@ json.dump(out, sys.stdout)
             'uncovered_without_reason': sorted(q for q, r in reasons.items() if r == 'NOT covered')}
 
 
+def _member_audit(gen):
+    """Public MEMBERS (constructor, __call__, listed dunders, public methods, properties, lazyproperties) of the
+    exported classes and of their photutils bases, as wrapped by the sentinel: reached as an outermost call vs not."""
+    reached = set(gen.get('reached_names', {}))
+    never = list(gen.get('never_reached_names', []))
+    reasons = {}
+    bases = ('.core.Aperture.', '.core.PixelAperture.', '.core.SkyAperture.', 'MaskMixin.', '.BackgroundBase.',
+             '.BackgroundRMSBase.', '.StarFinderBase.', '.ProfileBase.', '.ModelImageMixin.', '._LegacyEPSFModel.',
+             '.attributes.')
+    for n in never:
+        if '.datasets.load.' in n:
+            reasons[n] = 'needs network / remote data files'
+        elif any(b in n for b in bases):
+            reasons[n] = 'defined on an abstract base / mixin / descriptor and overridden (or only evaluated nested) in every concrete class the workload uses'
+        elif n.rsplit('.', 1)[-1] in ('__init__',) and ('Mixin' in n or 'Base' in n):
+            reasons[n] = 'abstract base constructor'
+        else:
+            reasons[n] = 'NOT reached as an outermost call (evaluated only nested inside another public call, or absent from the table)'
+    unexplained = sorted(n for n, r in reasons.items() if r.startswith('NOT reached'))
+    return {'public_members_wrapped': gen.get('public_entry_points_wrapped', 0),
+            'public_members_reached': len(reached),
+            'public_members_not_reached': len(never),
+            'public_members_not_reached_reasons': reasons,
+            'public_members_not_reached_unexplained': unexplained}
+
+
 def driver_legs(tier, seed, tmpdir, only=None):
     info = {}
     records = []
     gen = _generated_coverage(tmpdir)
     audit = _surface_audit(gen.get('reached_names', {})) if gen.get('table_entries_run') else {}
+    if audit and 'error' not in audit:
+        audit.update(_member_audit(gen))
     gen['surface_audit'] = audit
     if audit and 'error' not in audit:
         records.append({'kind': 'case', 'pid': ID, 'tier': tier, 'seed': seed, 'shard': SUITE_SHARD + 1, 'idx': 0,
@@ -628,7 +656,11 @@ def driver_legs(tier, seed, tmpdir, only=None):
                         'notes': {'surface_exported_callables': audit['exported_distinct_callables'],
                                   'surface_covered_callables': audit['covered_callables'],
                                   'surface_uncovered_callables': audit['uncovered_callables'],
-                                  'surface_uncovered_without_reason': len(audit['uncovered_without_reason'])},
+                                  'surface_uncovered_without_reason': len(audit['uncovered_without_reason']),
+                                  'surface_public_members_wrapped': audit.get('public_members_wrapped', 0),
+                                  'surface_public_members_reached': audit.get('public_members_reached', 0),
+                                  'surface_public_members_not_reached': audit.get('public_members_not_reached', 0),
+                                  'surface_public_members_unexplained': len(audit.get('public_members_not_reached_unexplained', []))},
                         'error': None})
     inc = []
     if gen['table_entries_run'] and gen['cells_run'] < gen['cells_total']:
